@@ -1818,9 +1818,11 @@ def as_uninitialized(fn):
         parameterized_instance = self_.self
         original_initialized = parameterized_instance._param__private.initialized
         parameterized_instance._param__private.initialized = False
-        ret = fn(self_, *args, **kw)
-        parameterized_instance._param__private.initialized = original_initialized
-        return ret
+        try:
+            return fn(self_, *args, **kw)
+        finally:
+            # also when fn raises: the object must not stay unlocked
+            parameterized_instance._param__private.initialized = original_initialized
     return override_initialization
 
 
